@@ -4,6 +4,7 @@
 use std::collections::btree_map::Entry as BEntry;
 use std::collections::hash_map::Entry as HEntry;
 use std::collections::{BTreeMap, HashMap, HashSet};
+use std::hash::Hasher;
 use std::sync::Arc;
 
 #[cfg(not(prometheus_verif))]
@@ -18,6 +19,7 @@ use crate::metrics::Collector;
 use crate::proto;
 
 use cfg_if::cfg_if;
+use fnv::FnvHasher;
 use lazy_static::lazy_static;
 
 #[derive(Default)]
@@ -41,10 +43,25 @@ impl std::fmt::Debug for RegistryCore {
     }
 }
 
+/// The id under which a collector is filed: a hash of the ids of its
+/// descriptors that does not depend on their order.
+///
+/// The ids are hashed rather than added up: descriptor ids of short, similar
+/// names differ by equal amounts, so that sums of different id sets coincide
+/// (for instance {g{k="1"}, y} and {g{k="2"}, x}).
+fn collector_id(desc_ids: impl Iterator<Item = u64>) -> u64 {
+    let mut ids: Vec<u64> = desc_ids.collect();
+    ids.sort_unstable();
+    let mut h = FnvHasher::default();
+    for id in ids {
+        h.write_u64(id);
+    }
+    h.finish()
+}
+
 impl RegistryCore {
     fn register(&mut self, c: Box<dyn Collector>) -> Result<()> {
         let mut desc_id_set = HashSet::new();
-        let mut collector_id: u64 = 0;
         // Dimension hashes of this collector's descriptors. They are only
         // recorded once the whole registration has succeeded, so that a failed
         // registration leaves the registry untouched.
@@ -94,12 +111,8 @@ impl RegistryCore {
 
             new_dim_hashes.insert(desc.fq_name.clone(), desc.dim_hash);
 
-            // If it is not a duplicate desc in this collector, add it to
-            // the collector_id.
-            if desc_id_set.insert(desc.id) {
-                // The set did not have this value present, true is returned.
-                collector_id = collector_id.wrapping_add(desc.id);
-            } else {
+            // A desc may occur only once in a collector.
+            if !desc_id_set.insert(desc.id) {
                 // The set did have this value present, false is returned.
                 //
                 // TODO: Should we allow duplicate descs within the same collector?
@@ -111,6 +124,7 @@ impl RegistryCore {
             }
         }
 
+        let collector_id = collector_id(desc_id_set.iter().copied());
         match self.collectors_by_id.entry(collector_id) {
             HEntry::Vacant(vc) => {
                 self.desc_ids.extend(desc_id_set);
@@ -124,14 +138,13 @@ impl RegistryCore {
 
     fn unregister(&mut self, c: Box<dyn Collector>) -> Result<()> {
         let mut id_set = Vec::new();
-        let mut collector_id: u64 = 0;
         for desc in c.desc() {
             if !id_set.contains(&desc.id) {
                 id_set.push(desc.id);
-                collector_id = collector_id.wrapping_add(desc.id);
             }
         }
 
+        let collector_id = collector_id(id_set.iter().copied());
         if self.collectors_by_id.remove(&collector_id).is_none() {
             return Err(Error::Msg(format!(
                 "collector {:?} is not registered",
